@@ -75,6 +75,7 @@ type Ctx struct {
 	maxViol int
 	DrvPath string
 	Self    string
+	quiet   bool // while shrinking: no counting, no samples
 }
 
 func (c *Ctx) startDriver(path string) error {
@@ -128,9 +129,16 @@ func (c *Ctx) ask(lines []string) []string {
 
 func (c *Ctx) ask1(line string) string { return c.ask([]string{line})[0] }
 
-func (c *Ctx) count(k string) { c.Res.Dist[k]++ }
+func (c *Ctx) count(k string) {
+	if !c.quiet {
+		c.Res.Dist[k]++
+	}
+}
 
 func (c *Ctx) nontrivial(parts ...string) {
+	if c.quiet {
+		return
+	}
 	h := fnv.New64a()
 	for _, p := range parts {
 		h.Write([]byte(p))
@@ -144,7 +152,7 @@ func (c *Ctx) nontrivial(parts ...string) {
 }
 
 func (c *Ctx) sample(v interface{}) {
-	if len(c.Res.Samples) < 6 {
+	if !c.quiet && len(c.Res.Samples) < 6 {
 		c.Res.Samples = append(c.Res.Samples, v)
 	}
 }
